@@ -169,7 +169,7 @@ def run(ctx):
         elif c0[0] != 'ok' or c1[0] != 'ok' or c0[1] != want_c or c1[1] != want_c:
             ctx.report('property', 'the face centres of the dataset / of the subset are not the stored face positions', mcase)
     narrow_tables(ctx)
-    fl, tmp = cc.flows(ctx, 35 if quick else 140, quick)
+    fl, tmp = cc.flows(ctx, 40 if quick else 140, quick)
     exprs, plans = [], []
     fill_exprs, fill_plans = [], []
     try:
@@ -261,6 +261,12 @@ def run(ctx):
                             tab[e] = Some(new_i)
                         tabs['edge'] = tab
                         ctx.count('edge numbering derived by the harness (mask has no new_edge_index)')
+                    else:
+                        # (an edge dimension is declared by the mesh or implied by either of its edge tables)
+                        ctx.report('property', f'the mesh has edges (edge dimension declared or implied by its edge tables) but the clip '
+                                   f'mask does not renumber them and the convention cannot list the edges of its faces ({fe_in[1]}): '
+                                   f'variables and tables on edges cannot be cut to the selected faces', case)
+                        continue
                 keep = {k: [i for i, x in enumerate(t) if x is not None] for k, t in tabs.items()}
                 dropped = len(keep['face']) < len(tabs['face'])
                 ctx.case((case['dataset'], f.tag, f.buffer, f.history), dropped,
